@@ -274,4 +274,138 @@ theorem SysInv.step_deliver {s : Sys} (h : SysInv s) (i cut : Nat) (perm : List 
         · exact own_applyDelta now d g
         · intro _ _; exact h.live_of_notLive (.deliver i cut perm dcut now) trivial hnl _ _
 
+theorem SysInv.step_leaveStream {s : Sys} (h : SysInv s) (n m : String) (now : Nat) :
+    SysInv (s.step (.leaveStream n m now)) := by
+  have hnj : ∀ a b now', Gossip.Op.leaveStream n m now ≠ .join a b true now' := fun _ _ _ => by simp
+  have hnl : ∀ a sus now', Gossip.Op.leaveStream n m now ≠ .liveness a sus now' := fun _ _ _ => by simp
+  show SysInv (s.gossip (.leaveStream n m now))
+  cases hn : s.net.nodes.find n with
+  | none => apply h.recv_same (.leaveStream n m now) trivial hnj <;> simp [Net.step, hn]
+  | some sn =>
+    cases hm : s.net.nodes.find m with
+    | none => apply h.recv_same (.leaveStream n m now) trivial hnj <;> simp [Net.step, hn, hm]
+    | some sm =>
+      by_cases hnm : n = m
+      · apply h.recv_same (.leaveStream n m now) trivial hnj <;> simp [Net.step, hn, hm, hnm]
+      · obtain ⟨sd, hsd⟩ := h.side_of_net hm
+        have hni := h.node m sd sm hsd hm
+        have hwho : (s.net.step (.leaveStream n m now)).who = m := by simp [Net.step, hn, hm, hnm]
+        have hdg : Flow.DeltaGood s.Good (localDelta sn) := Flow.localDelta_good (h.flow.find hn)
+        refine (h.recv_one (.leaveStream n m now) trivial hnj (g := sm)
+          (g' := (applyDelta now sm (localDelta sn)).1) (by rw [hwho]; exact hm) ?_ ?_ ?_ ?_).1
+        · simp [Net.step, hn, hm, hnm, Net.setNode]
+        · have : (s.net.step (.leaveStream n m now)).events = (applyDelta now sm (localDelta sn)).2 := by
+            simp [Net.step, hn, hm, hnm]
+          rw [this]; exact C14.applyDelta_good now sm _ hni.wf hni.keys (Sys.deltaOK_of_good hdg)
+        · exact own_applyDelta now _ sm
+        · intro _ _; exact h.live_of_notLive (.leaveStream n m now) trivial hnl _ _
+
+theorem SysInv.step_liveness {s : Sys} (h : SysInv s) (n : String) (sus : List String) (now : Nat) :
+    SysInv (s.step (.liveness n sus now)) := by
+  have hnj : ∀ a b now', Gossip.Op.liveness n sus now ≠ .join a b true now' := fun _ _ _ => by simp
+  show SysInv (s.gossip (.liveness n sus now))
+  cases hn : s.net.nodes.find n with
+  | none => apply h.recv_same (.liveness n sus now) trivial hnj <;> simp [Net.step, hn]
+  | some g =>
+    obtain ⟨sd, hsd⟩ := h.side_of_net hn
+    have hni := h.node n sd g hsd hn
+    have hwho : (s.net.step (.liveness n sus now)).who = n := by simp [Net.step, hn]
+    have hev : (s.net.step (.liveness n sus now)).events = (updateLiveness g (fun id => sus.contains id) now).2 := by
+      simp [Net.step, hn]
+    refine (h.recv_one (.liveness n sus now) trivial hnj (g := g)
+      (g' := (updateLiveness g (fun id => sus.contains id) now).1) (by rw [hwho]; exact hn) ?_ ?_ ?_ ?_).1
+    · simp [Net.step, hn, Net.setNode]
+    · rw [hev]; exact C14.updateLiveness_good g _ now hni.wf
+    · exact (keeps_updateLiveness g _ now hni.wf.1 (fun a V hf => (hni.wf.2.1 a V hf).1)).2
+    · intro sd' hsd'
+      rw [hwho] at hsd' ⊢
+      rw [hsd] at hsd'; cases hsd'
+      rw [hev]
+      exact SyncerSpec.trace_live_liveness n g _ now _ _ hni.wf hni.fold
+        (SyncerSpec.sameView_fold [] [] sd.evs SyncerSpec.sameView_nil)
+
+theorem SysInv.step_join {s : Sys} (h : SysInv s) (n m : String) (rd : Bool) (now : Nat) :
+    SysInv (s.step (.join n m rd now)) := by
+  show SysInv (s.gossip (.join n m rd now))
+  have hnjf : ∀ a b now', Gossip.Op.join n m false now ≠ .join a b true now' := fun _ _ _ => by simp
+  have hnl : ∀ rd' a sus now', Gossip.Op.join n m rd' now ≠ .liveness a sus now' := fun _ _ _ _ => by simp
+  -- the cases in which nothing happens
+  have hsame : (s.net.nodes.find n = none ∨ s.net.nodes.find m = none ∨ n = m) → SysInv (s.gossip (.join n m rd now)) := by
+    intro hc
+    have h1 : (s.net.step (.join n m rd now)).net = s.net ∧ (s.net.step (.join n m rd now)).events = [] := by
+      rcases hc with hc | hc | hc
+      · simp [Net.step, hc]
+      · cases hn : s.net.nodes.find n <;> simp [Net.step, hn, hc]
+      · cases hn : s.net.nodes.find n <;> cases hm : s.net.nodes.find m <;> simp [Net.step, hn, hm, hc]
+    have h2 : Sys.replyEvents s.net n m now = [] := by
+      rcases hc with hc | hc | hc
+      · simp [Sys.replyEvents, hc]
+      · cases hn : s.net.nodes.find n <;> simp [Sys.replyEvents, hn, hc]
+      · cases hn : s.net.nodes.find n <;> cases hm : s.net.nodes.find m <;> simp [Sys.replyEvents, hn, hm, hc]
+    have : s.gossip (.join n m rd now) = s := by
+      cases rd <;> simp [Sys.gossip, h1.1, h1.2, h2, Sys.feed_nil]
+    rw [this]; exact h
+  cases hn : s.net.nodes.find n with
+  | none => exact hsame (Or.inl hn)
+  | some sn =>
+    cases hm : s.net.nodes.find m with
+    | none => exact hsame (Or.inr (Or.inl hm))
+    | some sm =>
+      by_cases hnm : n = m
+      · exact hsame (Or.inr (Or.inr hnm))
+      · -- the request half at `m`
+        obtain ⟨sdm, hsdm⟩ := h.side_of_net hm
+        have him := h.node m sdm sm hsdm hm
+        have hdg : Flow.DeltaGood s.Good (localDelta sn) := Flow.localDelta_good (h.flow.find hn)
+        have hg1 := C14.applyDelta_good now sm (localDelta sn) him.wf him.keys (Sys.deltaOK_of_good hdg)
+        have hg2 := C14.applyDigest_good (applyDelta now sm (localDelta sn)).1 (sortDigest (digest sn)) hg1.wf
+        have hwho : (s.net.step (.join n m false now)).who = m := by simp [Net.step, hn, hm, hnm]
+        have hstep1 := h.recv_one (.join n m false now) trivial hnjf (g := sm)
+          (g' := (applyDigest (applyDelta now sm (localDelta sn)).1 (sortDigest (digest sn))).1)
+          (by rw [hwho]; exact hm) (by simp [Net.step, hn, hm, hnm, Net.setNode])
+          (by
+            have : (s.net.step (.join n m false now)).events = (applyDelta now sm (localDelta sn)).2 ++
+                (applyDigest (applyDelta now sm (localDelta sn)).1 (sortDigest (digest sn))).2 := by
+              simp [Net.step, hn, hm, hnm]
+            rw [this]; exact hg1.trans hg2)
+          (by rw [own_applyDigest _ _ (stWF_ownPresent hg1.wf), own_applyDelta])
+          (fun _ _ => h.live_of_notLive (.join n m false now) trivial (hnl false) _ _)
+        cases rd with
+        | false => exact hstep1.1
+        | true =>
+          -- the reply half at `n`
+          obtain ⟨h1, hle1⟩ := hstep1
+          have hs1n : (s.gossip (.join n m false now)).net.nodes.find n = some sn := by
+            simp [Sys.gossip, Net.step, hn, hm, hnm, Net.setNode, AMap.find_insert_ne _ _ hnm, hn]
+          have hs1m : (s.gossip (.join n m false now)).net.nodes.find m =
+              some (applyDigest (applyDelta now sm (localDelta sn)).1 (sortDigest (digest sn))).1 := by
+            simp [Sys.gossip, Net.step, hn, hm, hnm, Net.setNode]
+          obtain ⟨sdn, hsdn⟩ := h1.side_of_net hs1n
+          have hin := h1.node n sdn sn hsdn hs1n
+          have hreply : Flow.DeltaGood (s.gossip (.join n m false now)).Good
+              (sortDelta (delta (applyDigest (applyDelta now sm (localDelta sn)).1 (sortDigest (digest sn))).1
+                (sortDigest (digest sn)) true)) :=
+            Flow.sortDelta_good (Flow.delta_good (h1.flow.find hs1m) _ _)
+          have hap := Flow.applyDelta_good (Sys.good_marker _) now (h1.flow.find hs1n) hreply
+          refine (h1.observe1 (s' := s.gossip (.join n m true now)) hsdn hs1n ?_ ?_
+            (C14.applyDelta_good now sn _ hin.wf hin.keys (Sys.deltaOK_of_good hreply))
+            (own_applyDelta now _ sn)
+            (SyncerSpec.trace_live_of_notLive n _ _ (fun x hx => (hap.2 x hx).2))
+            (fun x hx => (hap.2 x hx).1) hap.1 ?_).1
+          · simp [Sys.gossip, Net.step, hn, hm, hnm, Net.setNode]
+          · intro k
+            have : (s.gossip (.join n m true now)).side =
+                Sys.feed (s.gossip (.join n m false now)).side n
+                  (applyDelta now sn (sortDelta (delta
+                    (applyDigest (applyDelta now sm (localDelta sn)).1 (sortDigest (digest sn))).1
+                    (sortDigest (digest sn)) true))).2 := by
+              simp [Sys.gossip, Net.step, hn, hm, hnm, Sys.replyEvents]
+            rw [this]
+            exact Sys.find_feed _ _ _ hsdn k
+          · intro src sa dst d hd
+            have : (s.gossip (.join n m true now)).net.pool = (s.gossip (.join n m false now)).net.pool := by
+              simp [Sys.gossip, Net.step, hn, hm, hnm, Net.setNode]
+            rw [this] at hd
+            exact h1.flow.pool _ _ _ _ hd
+
 end Piko
